@@ -23,7 +23,7 @@ m = {
  "engines":[{"name":"sim","path":"sim/","serves_properties":["C06","C07","C10","C18","C19"],"kind_free_text":"seeded deterministic simulator: fault-injecting streams, virtual-time asyncio network, baton thread scheduler, fork-isolated goldens, seeded process-environment swarm (time zone, gc mode, calling thread) and a python -O sub-pass; own PRNG, shrinker and JSON replay files"}],
  "checks":[],
  "not_applicable":[{"property_id":k,"reason":v} for k,v in sorted(na.items())],
- "notes":"See DESIGN.md. Exit codes: 0 held (KNOWN-FINDING lines allowed), 1 VIOLATION, 2 harness error (never a verdict). No hook commits in /repo; two unguarded fix: commits (c498023 unknown tagged fields, 23f9ffb LogAppendTime batches); two open known findings in known_findings.json. Self-tests: ./check selftest-determinism, ./check selftest-sensitivity. Seeded changes: seeded/ (106, all caught by the quick tier of their property's check), evaluated with tools/seeded.py.",
+ "notes":"See DESIGN.md. Exit codes: 0 held (KNOWN-FINDING lines allowed), 1 VIOLATION, 2 harness error (never a verdict). No hook commits in /repo; two unguarded fix: commits (c498023 unknown tagged fields, 23f9ffb LogAppendTime batches); two open known findings in known_findings.json. Self-tests: ./check selftest-determinism, ./check selftest-sensitivity. Seeded changes: seeded/ (111; 110 caught by the quick tier of their property's check, c06w only by C07 and C10), evaluated with tools/seeded.py.",
 }
 def chk(pid, level, text, note, technique, ref, **kw):
     return {"property_id":pid,"quick_cmd":f"timeout 900 ./check {pid} --tier quick","thorough_cmd":f"timeout 21600 ./check {pid} --tier thorough","evidence_file":f"evidence/{pid}.json","replay_cmd_template":f"./check {pid} --replay {{path}}","engine":"sim","level_claimed":{"category":level,"text":text,"design_ref":ref},"level_note":note,"technique":technique}
